@@ -3,6 +3,7 @@ package main
 import (
 	"fmt"
 	"os"
+	"sort"
 	"strings"
 
 	"golang.org/x/tools/go/ssa"
@@ -53,6 +54,53 @@ func init() {
 				continue
 			}
 			fmt.Printf("SIG %s\t%s\n", FuncName(f), sigString(f))
+		}
+	})
+}
+
+// CALLERS: developer aid printing, per package function, the top-level functions that mention it (call it or take its
+// value) — the table headCallers of headfuncs.go (mqttcheck -property CALLERS).
+func init() {
+	register("CALLERS", "developer aid", func(r *Run) {
+		key := func(f *ssa.Function) string {
+			k := f.Name()
+			if recv := f.Signature.Recv(); recv != nil {
+				k = typeName(recv.Type()) + "." + k
+			}
+			return k
+		}
+		users := map[string]map[string]bool{}
+		for _, f := range r.C.Funcs {
+			top := enclosingTop(f)
+			eachInstr(f, func(in ssa.Instruction) {
+				var ops []*ssa.Value
+				for _, op := range in.Operands(ops) {
+					if op == nil || *op == nil {
+						continue
+					}
+					g, ok := (*op).(*ssa.Function)
+					if !ok || g.Pkg != r.C.Pkg || g.Parent() != nil || g.Synthetic != "" {
+						continue
+					}
+					if users[key(g)] == nil {
+						users[key(g)] = map[string]bool{}
+					}
+					users[key(g)][key(top)] = true
+				}
+			})
+		}
+		var ks []string
+		for k := range users {
+			ks = append(ks, k)
+		}
+		sort.Strings(ks)
+		for _, k := range ks {
+			var us []string
+			for u := range users[k] {
+				us = append(us, u)
+			}
+			sort.Strings(us)
+			fmt.Printf("CALLERS\t%q: {%s},\n", k, `"`+strings.Join(us, `", "`)+`"`)
 		}
 	})
 }
